@@ -176,3 +176,44 @@ def known_ne(a, b, facts):
     if f[1] == "NotEq" and ((f[2] == a and f[3] == b) or (f[2] == b and f[3] == a)):
       return True
   return known_lt(a, b, facts) or known_lt(b, a, facts)
+
+
+# ------------------------------------------------------------------ tiny linear-arithmetic prover
+def linear_facts(facts):
+  """Integer facts as polynomials known to be >= 0."""
+  out = []
+  for f in facts:
+    if f[0] != "cmp" or not isinstance(f[2], Poly) or not isinstance(f[3], Poly):
+      continue
+    a, b = f[2], f[3]
+    op = f[1]
+    if op == "LtE":
+      out.append(b - a)
+    elif op == "Lt":
+      out.append(b - a - 1)
+    elif op == "GtE":
+      out.append(a - b)
+    elif op == "Gt":
+      out.append(a - b - 1)
+    elif op == "Eq":
+      out.append(a - b)
+      out.append(b - a)
+  return out
+
+
+def prove_nonneg(goal, nonneg, max_mult=4):
+  """Is goal >= 0 a nonnegative integer combination of the given polynomials (each >= 0) plus a constant >= 0?
+  Exhaustive search over small multipliers (complete for the goals used here)."""
+  import itertools
+  nonneg = [p for p in nonneg if not p.is_zero()][:8]
+  g = goal
+  if g.is_const():
+    return g.constval() >= 0, "constant"
+  for lam in itertools.product(range(max_mult + 1), repeat=len(nonneg)):
+    r = g
+    for l, p in zip(lam, nonneg):
+      if l:
+        r = r - p * l
+    if r.is_const() and r.constval() >= 0:
+      return True, "goal = %s + %s" % (r.constval(), " + ".join("%d*(%r)" % (l, p) for l, p in zip(lam, nonneg) if l))
+  return False, "no nonnegative combination of the path facts proves %r >= 0" % (goal,)
